@@ -296,6 +296,13 @@ def eval_case(kind, data):
         else:
             grid = [0.0] + [ref.ppf(q) for q in (0.001, 0.01, 0.1, 0.25, 0.4, 0.5, 0.6, 0.75, 0.9, 0.99, 0.9999)]
         grid = sorted(set(round(float(g), 6) for g in grid))
+        if fam in ("gauss", "uniform", "log_normal"):
+            # continuous laws: also ends with different fractional parts inside one integer bin and in neighbouring bins
+            import math as _m
+
+            mid = _m.floor(ref.ppf(0.5) if fam != "uniform" else (ref.lo + ref.hi) / 2)
+            fine = [mid + x for x in (0.053, 0.25, 0.453, 0.9, 1.2, 1.75, 3.0)]
+            grid = sorted(set(grid + fine))
         nbad = 0
         for i, a in enumerate(grid):
             for b in grid[i + 1 :]:
